@@ -1,9 +1,133 @@
-/- line protocol stub for component `Obsv` (filled in by the component's owner) -/
+import Tulz.Model.Observable
+import Tulz.Drv.Util
+/- line protocol for the Observable model: `obsv <op> <args…>`; one Observable per case.
+   kinds: `long` (Observable<long>), `dy` (Observable<double, NearEq>; values are dyadic rationals
+   written as integers scaled by 2^20, NearEq = |a-b| < 2^-4), `str` (Observable<std::string>; tokens `'text`). -/
 namespace Tulz.Drv.Obsv
+open Tulz Tulz.Subject Tulz.Observable
 
-abbrev State := Unit
-def init : State := ()
+inductive V where
+  | i (n : Int)
+  | s (x : String)
+deriving DecidableEq, Repr
 
-def step (s : State) (_args : List String) : State × String := (s, "bad-op")
+inductive Kind where
+  | long | dy | str
+deriving DecidableEq, Repr
+
+def scale : Int := 1048576      -- 2^20
+def eps : Int := 65536          -- 2^-4 scaled
+
+def veq : Kind → V → V → Bool
+  | .dy, .i a, .i b => decide ((a - b).natAbs < eps.natAbs)
+  | _, a, b => a == b
+
+def showV : V → String
+  | .i n => toString n
+  | .s x => "'" ++ x
+
+def parseV (k : Kind) (t : String) : Option V :=
+  match k with
+  | .str => if t.startsWith "'" then some (.s (t.drop 1).toString) else none
+  | _ => V.i <$> t.toInt?
+
+/-- the compound operators; `none` = outside the valid inputs (division by zero, inexact dyadic result) -/
+def binop (k : Kind) (op : String) (a b : V) : Option V :=
+  match k, a, b with
+  | .str, .s x, .s y => if op == "add" then some (.s (x ++ y)) else none
+  | .long, .i x, .i y =>
+    if op == "add" then some (.i (x + y)) else if op == "sub" then some (.i (x - y))
+    else if op == "mul" then some (.i (x * y))
+    else if op == "div" then (if y == 0 then none else some (.i (x.tdiv y)))
+    else none
+  | .dy, .i x, .i y =>
+    if op == "add" then some (.i (x + y)) else if op == "sub" then some (.i (x - y))
+    else if op == "mul" then (if (x * y) % scale == 0 then some (.i ((x * y) / scale)) else none)
+    else if op == "div" then (if y == 0 then none else if (x * scale) % y == 0 then some (.i ((x * scale).tdiv y)) else none)
+    else none
+  | _, _, _ => none
+
+def one : Kind → Int
+  | .dy => scale
+  | _ => 1
+
+def unop (k : Kind) (fn : String) (a : V) : Option V :=
+  match a with
+  | .i x =>
+    if fn == "inc" then some (.i (x + one k)) else if fn == "dec" then some (.i (x - one k))
+    else if fn == "neg" then some (.i (-x)) else if fn == "id" then some a
+    else if fn == "zero" then some (.i 0) else if fn == "dbl" then some (.i (x + x)) else none
+  | .s x =>
+    if fn == "id" then some a else if fn == "clr" then some (.s "") else if fn == "dup" then some (.s (x ++ x)) else none
+
+structure State where
+  cur : Option (Kind × Obsv V) := none
+
+def init : State := {}
+
+def noLib : Nat → List Action := fun _ => []
+
+def showLog (tr : List (Ev V)) : String :=
+  "log=" ++ " ".intercalate ((calls tr).map (fun p => toString p.1 ++ "(" ++ showV p.2 ++ ")"))
+
+def finish (k : Kind) (o : Obsv V) (ret : Option V) : State × String :=
+  let out := "ret=" ++ (match ret with | some v => showV v | none => "-") ++ " | val=" ++ showV o.val ++ " | " ++ showLog o.w.trace
+  ({ cur := some (k, { o with w := { o.w with trace := [] } }) }, if o.w.ub then "!UB" else out)
+
+def step (st : State) (args : List String) : State × String :=
+  match args with
+  | ["reset"] => ({}, "ok")
+  | ["new", kind, v0] =>
+    let k? : Option Kind := if kind == "long" then some .long else if kind == "dy" then some .dy else if kind == "str" then some .str else none
+    match k? with
+    | none => (st, "bad-op")
+    | some k => match parseV k v0 with
+      | none => (st, "bad-op")
+      | some v => ({ cur := some (k, { val := v, w := { sid := 0 } }) }, "ok")
+  | op :: rest =>
+    match st.cur with
+    | none => (st, "!PRECOND")
+    | some (k, o) =>
+      match op, rest with
+      | "value", [] => (st, "val=" ++ showV o.val)
+      | "subscribe", [] =>
+        let o' := o.subscribe []
+        ({ cur := some (k, o') }, s!"h={o.w.handles.length} id={o.w.counter}")
+      | "unsub", [h] =>
+        match h.toNat? >>= (o.w.handles[·]?) with
+        | none => (st, "!PRECOND")
+        | some hd =>
+          if hd.subj.isNone then (st, "!PRECOND")
+          else if o.w.isSubscriptionValid hd then ({ cur := some (k, o.unsubscribe (h.toNat?.getD 0)) }, "ok")
+          else (st, "!INVALID_ARG")
+      | "assign", [v] =>
+        match parseV k v with
+        | none => (st, "bad-op")
+        | some v => finish k (o.assign noLib (veq k) v) none
+      | "apply", [fn] =>
+        match unop k fn o.val with
+        | none => (st, "!PRECOND")
+        | some r => finish k (o.apply noLib (veq k) (fun _ => r)) none
+      | "preinc", [] => match unop k "inc" o.val with
+        | none => (st, "!PRECOND")
+        | some r => let p := o.pre noLib (fun _ => r); finish k p.1 (some p.2)
+      | "predec", [] => match unop k "dec" o.val with
+        | none => (st, "!PRECOND")
+        | some r => let p := o.pre noLib (fun _ => r); finish k p.1 (some p.2)
+      | "postinc", [] => match unop k "inc" o.val with
+        | none => (st, "!PRECOND")
+        | some r => let p := o.post noLib (fun _ => r); finish k p.1 (some p.2)
+      | "postdec", [] => match unop k "dec" o.val with
+        | none => (st, "!PRECOND")
+        | some r => let p := o.post noLib (fun _ => r); finish k p.1 (some p.2)
+      | bop, [v] =>
+        match parseV k v with
+        | none => (st, "bad-op")
+        | some v =>
+          match binop k bop o.val v with
+          | none => (st, "!PRECOND")
+          | some r => finish k (o.opAssign noLib (veq k) (fun _ _ => r) v) none
+      | _, _ => (st, "bad-op")
+  | _ => (st, "bad-op")
 
 end Tulz.Drv.Obsv
